@@ -644,7 +644,7 @@ pub open spec fn cel_ok(f: &AsepriteFile, c: &RawCel) -> bool {
 }
 pub open spec fn file_ok(f: &AsepriteFile) -> bool {
     &&& f.framedata.data.len() == f.num_frames as int
-    &&& f.layers.layers.len() <= 65535
+    &&& f.layers.layers.len() <= 65536
     &&& parents_ok(f.layers.layers@, f.layers.parents@)
     &&& forall|fr: int, l: int| (#[trigger] f.framedata.at(fr, l)) is Some ==> {
             &&& l < f.layers.layers.len()
